@@ -5,23 +5,23 @@ EXTENDS TimerOps
 
 -----------------------------------------------------------------------------
 (* State machine over the operators: every history of API calls.             *)
-VARIABLES t, fired, outc
-vars == <<t, fired, outc>>
+VARIABLES vT, vFired, vOutc
+vars == <<vT, vFired, vOutc>>
 
-Apply(r) == t' = r.t /\ fired' = r.irq /\ outc' = r.out
+Apply(r) == vT' = r.t /\ vFired' = r.irq /\ vOutc' = r.out
 
-Init == t = ResetState /\ fired = 0 /\ outc = "ok"
+Init == vT = ResetState /\ vFired = 0 /\ vOutc = "ok"
 
-Tick      == Apply(TickOp(t))
-TickEvent == Apply(TickEventOp(t))
-Restart   == Apply(RestartOp(t))
-Reset     == Apply(ResetOp(t))
-Skip      == \E k \in WideSet : WithinHorizon(t, k) /\ Apply(SkipOp(t, k))
-Config    == \/ \E v \in Modes   : Apply(SetMode(t, v))
-             \/ \E v \in 0..1    : Apply(SetPause(t, v))
-             \/ \E v \in 0..1    : Apply(SetUpd(t, v))
-             \/ \E v \in WideSet : Apply(SetStart(t, v))
-             \/ \E v \in WideSet : Apply(SetMirror(t, v))
+Tick      == Apply(TickOp(vT))
+TickEvent == Apply(TickEventOp(vT))
+Restart   == Apply(RestartOp(vT))
+Reset     == Apply(ResetOp(vT))
+Skip      == \E k \in WideSet : WithinHorizon(vT, k) /\ Apply(SkipOp(vT, k))
+Config    == \/ \E v \in Modes   : Apply(SetMode(vT, v))
+             \/ \E v \in 0..1    : Apply(SetPause(vT, v))
+             \/ \E v \in 0..1    : Apply(SetUpd(vT, v))
+             \/ \E v \in WideSet : Apply(SetStart(vT, v))
+             \/ \E v \in WideSet : Apply(SetMirror(vT, v))
 
 Next == Tick \/ TickEvent \/ Restart \/ Reset \/ Skip \/ Config
 Spec == Init /\ [][Next]_vars
@@ -29,7 +29,7 @@ Spec == Init /\ [][Next]_vars
 -----------------------------------------------------------------------------
 (* Property layer (C15)                                                      *)
 
-TypeOK == t \in TimerState /\ fired \in 0..1 /\ outc \in {"ok", "assert"}
+TypeOK == vT \in TimerState /\ vFired \in 0..1 /\ vOutc \in {"ok", "assert"}
 
 \* k single ticks, accumulating interrupts
 RECURSIVE TickN(_, _)
@@ -41,15 +41,15 @@ TickN(r, k) == IF WIsZero(k) THEN r
 \* "advancing by k cycles in one step, for any k up to the horizon, is
 \*  indistinguishable from k single cycles (k = 0 changes nothing)"
 SkipIsTicks ==
-    \A k \in WideSet : WithinHorizon(t, k) => SkipOp(t, k) = TickN(Ok(t, 0), k)
+    \A k \in WideSet : WithinHorizon(vT, k) => SkipOp(vT, k) = TickN(Ok(vT, 0), k)
 
 \* "that horizon never skips over an interrupt"
 NoIrqInHorizon ==
-    \A k \in WideSet : WithinHorizon(t, k) => TickN(Ok(t, 0), k).irq = 0
+    \A k \in WideSet : WithinHorizon(vT, k) => TickN(Ok(vT, 0), k).irq = 0
 
 \* the skip never trips the deliberate assertions when called within the horizon
 SkipNeverAsserts ==
-    \A k \in WideSet : WithinHorizon(t, k) => SkipOp(t, k).out = "ok"
+    \A k \in WideSet : WithinHorizon(vT, k) => SkipOp(vT, k).out = "ok"
 
 Running(x) == x.p = 0 /\ x.m # Event
 
@@ -57,24 +57,24 @@ Running(x) == x.p = 0 /\ x.m # Event
 \*  afterwards single stops, auto-restart reloads on the following cycle, free-running wraps,
 \*  a paused timer holds" -- stated on one Tick from every reachable state
 TickRules ==
-    LET n == TickOp(t) IN
+    LET n == TickOp(vT) IN
     /\ n.out = "ok"
-    /\ n.irq = (IF Running(t) /\ t.c = WOne THEN 1 ELSE 0)
-    /\ ~ Running(t) => n.t = t
-    /\ Running(t) /\ ~ WIsZero(t.c) => n.t.c = WDec(t.c)
-    /\ Running(t) /\ WIsZero(t.c) =>
-          n.t.c = (CASE t.m = Single -> WZero [] t.m = Auto -> t.s [] t.m = Free -> WMax)
-    /\ n.t.mi = (IF t.u = 1 /\ (n.t.c # t.c \/ (Running(t) /\ WIsZero(t.c) /\ t.m # Single))
-                 THEN n.t.c ELSE t.mi)
-    /\ [n.t EXCEPT !.c = t.c, !.mi = t.mi] = t
+    /\ n.irq = (IF Running(vT) /\ vT.c = WOne THEN 1 ELSE 0)
+    /\ ~ Running(vT) => n.t = vT
+    /\ Running(vT) /\ ~ WIsZero(vT.c) => n.t.c = WDec(vT.c)
+    /\ Running(vT) /\ WIsZero(vT.c) =>
+          n.t.c = (CASE vT.m = Single -> WZero [] vT.m = Auto -> vT.s [] vT.m = Free -> WMax)
+    /\ n.t.mi = (IF vT.u = 1 /\ (n.t.c # vT.c \/ (Running(vT) /\ WIsZero(vT.c) /\ vT.m # Single))
+                 THEN n.t.c ELSE vT.mi)
+    /\ [n.t EXCEPT !.c = vT.c, !.mi = vT.mi] = vT
 
 EventRules ==
-    LET n == TickEventOp(t)
-        live == t.p = 0 /\ t.m = Event /\ ~ WIsZero(t.c) IN
-    /\ n.irq = (IF live /\ t.c = WOne THEN 1 ELSE 0)
-    /\ n.t.c = (IF live THEN WDec(t.c) ELSE t.c)
+    LET n == TickEventOp(vT)
+        live == vT.p = 0 /\ vT.m = Event /\ ~ WIsZero(vT.c) IN
+    /\ n.irq = (IF live /\ vT.c = WOne THEN 1 ELSE 0)
+    /\ n.t.c = (IF live THEN WDec(vT.c) ELSE vT.c)
 
 \* the state machine only reports an interrupt on a 1 -> 0 transition of the counter
 FireOnlyOnOneToZero ==
-    [][fired' = 1 => (t.c = WOne /\ WIsZero(t'.c))]_vars
+    [][vFired' = 1 => (vT.c = WOne /\ WIsZero(vT'.c))]_vars
 =============================================================================
